@@ -228,14 +228,17 @@ def claims(tier):
     keys_q = ["C", "F#", "Eb", "a", "g#"]
     keysets = [keys_q] if q else [KEYS[i : i + 5] for i in range(0, 30, 5)]
     for n, ks in enumerate(keysets):
-        cl.append(Claim("prefix[keys%d]" % n, c08_prefix, params={"keys": ks}, pre=[lambda pre, ki, d, seven: spelled("C" + pre, 3) and 0 <= ki < len(P["keys"]) and 0 <= d < 7], timeout=900 if q else 3000, bounds="prefix: every string over {#,b} of length <= 3 (symbolic); keys %r; 7 degrees; triad and seventh" % (ks,)))
+        for d0 in range(7):
+            cl.append(Claim("prefix[keys%d,%s]" % (n, NUM_UP[d0]), c08_prefix, params={"keys": ks, "d0": d0}, group="c08_prefix", pre=[lambda pre, ki, d, seven: spelled("C" + pre, 3) and 0 <= ki < len(P["keys"]) and d == P["d0"]], timeout=900 if q else 3000, bounds="prefix: every string over {#,b} of length <= 3 (symbolic); keys %r; degree %s; triad and seventh" % (ks, NUM_UP[d0])))
     step = 9
     for n, ks in enumerate(keysets):
         for lo in range(0, len(SUFFIXES), step):
             sfx = SUFFIXES[lo : lo + step]
             cl.append(Claim("suffix[keys%d,%d-%d]" % (n, lo, lo + len(sfx) - 1), c08_suffix, params={"keys": ks, "suffixes": sfx}, pre=[lambda ki, d, si: 0 <= ki < len(P["keys"]) and 0 <= d < 7 and 0 <= si < len(P["suffixes"])], timeout=900 if q else 3000, bounds="keys %r x 7 degrees x suffixes %r x numeral case" % (ks, sfx)))
     cl.append(Claim("unrecognised", c08_unrecognised, pre=[lambda s: 1 <= len(s) <= (3 if q else 4)], timeout=900 if q else 3000, bounds="every unicode string of length 1..%d without '#'/'b' whose leading I/V run is not a numeral" % (3 if q else 4)))
-    cl.append(Claim("parse_format", c08_parse_format, pre=[lambda pre, d, si: spelled("C" + pre, 3) and 0 <= d < 7 and 0 <= si < len(SUFFIXES) + 2], timeout=900 if q else 3000, bounds="prefix #^k or b^k, k <= 3 (symbolic); 7 numerals; every suffix"))
+    nsfx = 12 if q else len(SUFFIXES) + 2
+    for d0 in range(7):
+        cl.append(Claim("parse_format[%s]" % NUM_UP[d0], c08_parse_format, params={"d0": d0, "nsfx": nsfx}, group="c08_parse_format", pre=[lambda pre, d, si: spelled("C" + pre, 3) and d == P["d0"] and 0 <= si < P["nsfx"]], timeout=900 if q else 3000, bounds="prefix #^k or b^k, k <= 3 (symbolic); numeral %s; %d suffixes" % (NUM_UP[d0], nsfx)))
     cl.append(Claim("determine", c08_determine, pre=[lambda ki, d: 0 <= ki < 15 and 0 <= d < 7], timeout=900 if q else 3000, per_path=60, bounds="15 major keys x 7 degrees x {triad, seventh} x {long, shorthand}"))
     mk = ["C", "Gb", "A"] if q else T.MAJOR_KEYS
     for ri in range(7):
